@@ -102,7 +102,7 @@ Observe(o, ob, ign) == last' = [op |-> o, ob |-> ob, pre |-> hist, sealed |-> se
 
 Create(R, F, nodh, dr, P) ==
   /\ "create" \in Ops /\ IsDir(disk, R)
-  /\ (nodh => "nodh" \in Ops) /\ (dr => "dr" \in Ops)
+  /\ (nodh => "nodh" \in Ops) /\ (dr => "dr" \in Ops) /\ ("dronly" \in Ops => dr)
   /\ LET r == TLCEval(CreateResult(hist, disk, R, F, nodh, dr, P))
          o == [op |-> "create", R |-> R, F |-> F, n |-> nodh, dr |-> dr, P |-> P]
      IN /\ hist' = IF r.abort THEN hist ELSE Commit(r)
@@ -141,7 +141,7 @@ VerifySF(R, s) ==
   /\ "verifysf" \in Ops /\ IsDir(disk, R) /\ s \in FilePaths /\ Below(R, s)
   /\ ReadOnly([op |-> "verifysf", R |-> R, S |-> s], TLCEval(VerifyResult(hist, disk, R, <<>>, s)), EffPats(hist, R, <<>>))
 VerifyDH(R) ==
-  /\ "verifydh" \in Ops /\ IsDir(disk, R) /\ Len(hist[R]) > 0
+  /\ "verifydh" \in Ops /\ IsDir(disk, R)            \* also on a folder without history: nothing to compare, exit 0
   /\ LET r == TLCEval(VerifyDHResult(hist, disk, R, <<>>))
      IN ReadOnly([op |-> "verifydh", R |-> R, co |-> FALSE, h |-> ""], [exit |-> r.exit, missing |-> {}, mismatch |-> r.baddirs, new |-> {}],
                  EffPats(hist, R, <<>>))
